@@ -215,7 +215,30 @@ func c12Check(c c12Case) (why string, ran int, skip string) {
 
 // pair rewrites: each entry is a list of statement lists that must end with the same outcome
 func c12Pairs(t *rapid.T, g *gen.G) (groups [][][]string, label string) {
-	switch rapid.IntRange(0, 4).Draw(t, "pair") {
+	switch rapid.IntRange(0, 6).Draw(t, "pair") {
+	case 5, 6:
+		// an operator applied to two expressions, and to the same expressions evaluated into
+		// temporaries first (same order): what the callee of a call operand does with the
+		// machine's registers must not matter
+		typ := rapid.SampledFrom([]string{"int", "float", "bool", "string", "array", "string", "array"}).Draw(t, "typ")
+		l := g.ExprOf(typ, rapid.IntRange(0, 3).Draw(t, "dl"))
+		r := g.ExprOf(typ, rapid.IntRange(0, 3).Draw(t, "dr"))
+		op := map[string][]string{"int": {"+", "*", "-", "&", "|", "==", "<", "/", "%"}, "float": {"+", "*", "-", "==", "<=", "/"}, "bool": {"&", "|", "==", "!="}, "string": {"+", "==", "+"}, "array": {"+", "==", "!=", "+"}}[typ]
+		o := rapid.SampledFrom(op).Draw(t, "op")
+		tail := rapid.SampledFrom([]string{"", "", " == zznever", " != zznever"}).Draw(t, "tail")
+		wrap := func(x string) string {
+			if tail == "" {
+				return x
+			}
+			return "(" + x + ")" + tail
+		}
+		return [][][]string{
+			{{"zznever = [[]]", wrap("(" + l + ") " + o + " (" + r + ")")}},
+			{{"zznever = [[]]", "zzl = [" + l + "]", "zzr = [" + r + "]", wrap("zzl[0] " + o + " zzr[0]")}},
+			{{"zznever = [[]]", "zzl = [" + l + "]", wrap("zzl[0] " + o + " (" + r + ")")}},
+			{{"zznever = [[]]", "zzwrap = () -> {\nzzl = [" + l + "]\nzzr = [" + r + "]\n" + wrap("zzl[0] "+o+" zzr[0]") + "\n}", "zzwrap()"}},
+			{{"zznever = [[]]", "zzwrap = () -> " + wrap("("+l+") "+o+" ("+r+")"), "zzwrap()"}},
+		}, "split"
 	case 4:
 		// the same sum spelled directly and through a temporary, observed by a type-sensitive use
 		e := g.ExprOf("int", rapid.IntRange(0, 2).Draw(t, "d"))
